@@ -496,7 +496,7 @@ func runMeaning(p c18Params, x *inst.Inst, res *runner.Result) {
 	s := &wire.Snap{FormatVersion: p.Format, CompatVersion: 1, Meta: wire.Meta{DatabaseName: "db", InstanceID: "r", GenerationID: "GX", TimestampNano: ts}}
 	d := wire.DBI{Name: "d0"}
 	d.Entries = []wire.KV{
-		{Key: []byte("k000"), Val: nil, TS: ts + 1},                 // empty value: v1 = deletion, v2+ = live empty
+		{Key: []byte("k000"), Val: nil, TS: ts + 1},                   // empty value: v1 = deletion, v2+ = live empty
 		{Key: []byte("k002"), Val: []byte("x"), TS: ts + 2, Flags: 1}, // deleted flag (with a stray value)
 		{Key: []byte("k004"), Val: []byte("new"), TS: ts + 3},
 		{Key: []byte("new1"), Val: nil, TS: ts + 4},
